@@ -72,3 +72,15 @@ Print Assumptions C11_env_least.
 Print Assumptions C11_imp_greatest.
 Print Assumptions C11_env_order_independent.
 Print Assumptions C11_stepwise_ops_are_translated.
+
+(* SAMPLE FORM (Proofs/ComposeOps.v): a sample bounded by one of the operands is bounded by their envelope; a sample bounded by BOTH operands
+   is bounded by their imposition (whenever the operation returns a p-box, which is then well formed) *)
+From PUN Require Import Proofs.Compose Proofs.ComposeOps.
+Theorem C11_envelope_sound steps plo phi (p q : list R * list R) (w : list R) r : WF steps p -> WF steps q ->
+  (snd_ steps p w \/ snd_ steps q w) -> penv RN steps plo phi p q = Ok r -> snd_ steps r w.
+Proof. intros Wp Wq [H|H] E; apply (penv_sound steps plo phi p q w r Wq); auto. Qed.
+Theorem C11_imposition_sound steps plo phi (p q : list R * list R) (w : list R) r :
+  snd_ steps p w -> snd_ steps q w -> pimp RN steps plo phi p q = Ok r -> snd_ steps r w.
+Proof. exact (pimp_sound steps plo phi p q w r). Qed.
+Print Assumptions C11_envelope_sound.
+Print Assumptions C11_imposition_sound.
